@@ -17,6 +17,8 @@ C_TEXT = {
     3: 'import pytest\n\n\n@pytest.fixture\ndef a():\n    return 1\n',
     4: 'import pytest\n',
     5: 'import pytest\n\n\n@pytest.fixture\ndef a(b):\n    return b\n\n\n@pytest.fixture\ndef b():\n    return 1\n',
+    6: 'import pytest\n\n\n@pytest.fixture\ndef a():\n    return 1\n\n\n@pytest.fixture\ndef b():\n    return 2\n\n\n'
+       '@pytest.fixture(scope="session")\ndef s(a, b):\n    return a\n',
 }
 T_TEXT = {
     1: 'def test_1():\n    result = a.value\n    assert result\n',
@@ -81,7 +83,7 @@ def check_c19(tier):
         ck = json.dumps(c["cfg"], sort_keys=True)
         ext = False
         for d in ("c", "t"):
-            for v in (1, 2, 3, 4, 5):
+            for v in (1, 2, 3, 4, 5, 6):
                 if (ck, json.dumps(c["hist"] + [{"d": d, "v": v}])) in keys:
                     ext = True
                     break
@@ -136,17 +138,17 @@ def check_c19(tier):
         i, n0, path = twin_index[json.dumps(hist_prefix)]
         r = twin_res[i]["res"]
         und, cyc, mis, snap = r[n0], r[n0 + 1], r[n0 + 2], r[n0 + 3]
-        out = set()
+        out = []            # a MULTISET: one entry per finding (two findings may share code and range)
         for u in und:
-            out.add(("undeclared-fixture", u["line"] - 1, u["sc"], u["ec"]))
+            out.append(("undeclared-fixture", u["line"] - 1, u["sc"], u["ec"]))
         defs = {(d["file"], d["line"], d["name"]): d for lst in snap["defs"].values() for d in lst}
         for cy in cyc:
             d = defs[(cy["fixture"]["file"], cy["fixture"]["line"], cy["fixture"]["name"])]
-            out.add(("circular-dependency", d["line"] - 1, d["sc"], d["ec"]))
+            out.append(("circular-dependency", d["line"] - 1, d["sc"], d["ec"]))
         for m in mis:
             d = defs[(m["fixture"]["file"], m["fixture"]["line"], m["fixture"]["name"])]
-            out.add(("scope-mismatch", d["line"] - 1, d["sc"], d["ec"]))
-        return out
+            out.append(("scope-mismatch", d["line"] - 1, d["sc"], d["ec"]))
+        return sorted(out)
 
     def session(job):
         n, c = job
@@ -212,23 +214,22 @@ def check_c19(tier):
             V.count()
             exp_codes, disabled = expect[(ck, json.dumps(pre))]
             pub = res["published"][k - 1]
-            pub_set = set(map(tuple, pub))
-            twin = {x for x in twin_expected(pre) if x[0] not in disabled}
+            pub_set = sorted(map(tuple, pub))
+            twin = [x for x in twin_expected(pre) if x[0] not in disabled]
             if len(pre) >= 2 or c["cfg"]["kind"] != "absent":
                 V.nontriv((ck, json.dumps(pre)))
             ex = {"cfg": c["cfg"], "pyproject": (pyproject(c["cfg"]) or b"").decode("latin-1"), "hist": pre,
                   "documents_closed_between_notifications": jn >= len(maximal),
-                  "published": sorted(map(list, pub_set)), "expected_codes": sorted(exp_codes),
-                  "library_twin": sorted(map(list, twin)),
+                  "published": [list(x) for x in pub_set], "expected_codes": sorted(exp_codes),
+                  "library_twin": [list(x) for x in twin],
                   "texts": [[e["d"], TEXT[e["d"]][e["v"]]] for e in pre]}
             if {x[0] for x in twin} != exp_codes:
                 # the concrete texts do not have the causes the specification attributes to them
                 raise C.ToolError("Lsp.tla expectation %r and library twin %r disagree for %r"
                                   % (sorted(exp_codes), sorted(twin), pre))
-            if len(pub) != len(pub_set):
-                V.violation(ex, "a diagnostic is published twice")
-            elif pub_set != twin:
-                V.violation(ex, "published diagnostics differ from the findings of the latest content minus disabled codes")
+            if pub_set != twin:
+                V.violation(ex, "published diagnostics differ from the findings of the latest content minus disabled codes "
+                                "(every finding once: compared as multisets of (code, range))")
     shutil.rmtree(base, ignore_errors=True)
     V.sample({"cfg": maximal[0]["cfg"], "hist": maximal[0]["hist"], "published": results[0].get("published")})
     V.sample({"cfg": maximal[-1]["cfg"], "hist": maximal[-1]["hist"], "published": results[-1].get("published")})
